@@ -88,7 +88,8 @@ Lemma claim_launchpad_tokens_tf sf e w w' :
   (forall e w a x w', sf e w a x = Ok w' -> st w' = st w) ->
   claim_launchpad_tokens sf e w = Ok w' -> tf (st w') = tf (st w).
 Proof.
-  intros Hsf. unfold claim_launchpad_tokens, send_launchpad_tokens. intros E. mon_inv. destruct a1.
+  intros Hsf. unfold claim_launchpad_tokens, send_launchpad_tokens. intros E. mon_inv.
+  match goal with Hx : settle_tickets _ _ = Ok ?a |- _ => destruct a end.
   match goal with H : settle_tickets _ _ = Ok _ |- _ => apply settle_tf in H end.
   destruct (n =? 0); [inversion E; subst; assumption|].
   apply Hsf in E. congruence.
